@@ -54,6 +54,12 @@ def case(rep, drv, rnd, i, tier):
     if broken:
         k = rnd.randrange(nsrc)
         texts[k] = texts[k] + rnd.choice(["\nfoo(a) :- .\n", "\n) stray.\n", "\nfoo('unterminated).\n", "\nfoo(a)\n", '\np("dq").\n'])
+    if rnd.random() < 0.12:
+        # a byte order mark: not a character of the grammar, for the library and for the command line alike
+        k = rnd.randrange(nsrc)
+        texts[k] = '\ufeff' + texts[k]
+        broken = True
+        rep.count('leading-byte-order-mark')
     rep.evaluations += 1
     with tempfile.TemporaryDirectory(prefix='yldverif') as td:
         paths = []
@@ -62,6 +68,14 @@ def case(rep, drv, rnd, i, tier):
             with open(path, 'wb') as f:
                 f.write(t.encode('utf8'))
             paths.append(path)
+        if rnd.random() < 0.2:
+            # the same source named twice: compiled twice, in the positions given
+            k = rnd.randrange(nsrc)
+            j = rnd.randint(0, nsrc)
+            paths.insert(j, paths[k])
+            texts.insert(j, texts[k])
+            nsrc += 1
+            rep.count('source-named-twice')
         use_stdin = rnd.random() < 0.3
         # the library's answer for every source
         lib = []
